@@ -13,7 +13,7 @@ EXPLANATION = (
     "definite information and a connected graph with a fixed vertex chi^2 is strictly convex in the free coordinates, so a "
     "stationary point is the unique global minimiser (mathematics, not code)."
 )
-BOUNDS = {"quick": "10 topologies over 2..3 vertices (tree, loop, multi-edge, landmark edges with offsets, several fixed), R^2 and R^3, one iteration from an arbitrary start", "thorough": "17 topologies over 2..4 vertices and <=5 edges, all non-empty fixed subsets of the 3-vertex loop"}
+BOUNDS = {"quick": "10 topologies over 2..3 vertices (tree, loop, multi-edge, landmark edges with offsets, several fixed), R^2 and R^3, one iteration from an arbitrary start", "thorough": "20 fixed topologies over 2..4 vertices, all non-empty fixed subsets of the 3-vertex loop, plus 24 seeded connected multigraphs with 4..6 vertices and up to 8 edges"}
 OUTSIDE = "5..30 vertices (identical per-edge algebra, but the solver verdict covers the bound only); rounding; SuperLU"
 ASSUMPTIONS = ["solver contract: returns dx with H dx = rhs (nonsingular case)", "information symmetric", "connected + >=1 fixed + SPD information => unique minimiser (convexity argument)"]
 
@@ -118,4 +118,21 @@ def cases(tier):
                 t = (2, 3, [("o", 0, 1), ("o", 1, 2), ("o", 2, 0)], set(fixed), False)
                 if _name(t) not in {_name(x) for x in topo}:
                     topo.append(t)
+    if tier == "thorough":
+        import random
+
+        rnd = random.Random(4242)
+        seen = {_name(x) for x in topo}
+        for _ in range(24):
+            dim = rnd.choice([2, 3])
+            nv = rnd.choice([4, 5, 6])
+            edges = [(rnd.choice("ol"), i, i + 1) if rnd.random() < 0.7 else (rnd.choice("ol"), i + 1, i) for i in range(nv - 1)]  # a spanning chain
+            for _e in range(rnd.choice([1, 2, 3])):
+                a, b = rnd.sample(range(nv), 2)
+                edges.append((rnd.choice("ol"), a, b))
+            fixed = set(rnd.sample(range(nv), rnd.choice([1, 1, 2])))
+            t = (dim, nv, edges, fixed, False)
+            if _name(t) not in seen:
+                seen.add(_name(t))
+                topo.append(t)
     return [Case(_name(t), _case(*t), timeout=60 if tier == "quick" else 300, old_timeout=60 if tier == "quick" else 300, validate=2, feas_timeout_ms=2000, shards=2 if t[1] >= 3 else 1) for t in topo]
